@@ -147,7 +147,9 @@ func (b *brokerProc) connect(name string, o connectOpts) (*rawclient.Client, err
 		o.ClientID = name
 	}
 	c.SendPacket(connectPacket(o))
-	if err := c.WaitFor(func(l []rawclient.Event, closed bool) bool { return len(l) > 0 && l[0].P.Type == rc.CONNACK && l[0].P.ReturnCode == 0 }, 10*time.Second); err != nil {
+	if err := c.WaitFor(func(l []rawclient.Event, closed bool) bool {
+		return len(l) > 0 && l[0].P.Type == rc.CONNACK && l[0].P.ReturnCode == 0
+	}, 10*time.Second); err != nil {
 		c.Close()
 		return nil, fmt.Errorf("no CONNACK: %v", err)
 	}
